@@ -14,7 +14,7 @@
  "kind": "proof",
  "timeout": 120,
  "replay": false,
- "expects": ["postcondition", "funccopy_wrapped_for_contract_checking", "assertion_repo"],
+ "expects": ["postcondition", "loop_contract", "assertion_repo"],
  "assumes": ["size >= 1 and size % min(align, 8) == 0: struct/union sizes are rounded up to their alignment by decl.c:tagspec and array sizes are multiples of the element size.  NOT true for __attribute__((packed)) structs with an _Alignas member (tagspec skips the rounding): see the report, defect 'packed struct copy'",
              "align is a power of two in [1, 2^30]; size <= 2^62",
              "funcinst appends exactly the instruction it is given and returns its result temporary (QBE.funcinst.dead); mkintconst real (inlined)"]
